@@ -387,7 +387,7 @@ def plan(ctx, rng):
     if ctx.quick():
         runs += [(0, [0, 1], 1, False), (0, [0, 2, 1], 1, True), (0, [1, 0, 2], 2, True), (0, [0, 1], 3, True)]
         cfg = gen_cfg(rng)
-        cfg["dist_fn"] = "normal" if cfg["dist_mc"] == "lognormal" else "lognormal"   # options must not be mixed up
+        cfg["dist_mc"], cfg["dist_fn"] = "normal", "lognormal"     # non-default --distribution_mc for EVERY file of a chunk; options must not be mixed up
         cfg["filt"] = [0.1, 30.0]     # a band-pass on files of different sampling rates within one worker (per-file filter design)
         k = int(rng.integers(4, 6))
         rates = [500, 100] + [int(rng.choice(RATES)) for _ in range(k - 2)]
@@ -396,6 +396,7 @@ def plan(ctx, rng):
         for j, nproc in enumerate([2, 1, 3]):
             runs.append((1, [int(i) for i in rng.permutation(k)], nproc, j != 1))
         cfg = gen_cfg(rng, nontrivial_bias=False)
+        cfg["dist_mc"], cfg["dist_fn"] = "lognormal", "normal"
         k = int(rng.integers(2, 4))
         scen.append((cfg, gen_specs(rng, cfg, [int(x) for x in rng.permutation(RATES)[:k]], "b")))
         runs += [(2, list(range(k)), 1, True), (2, list(range(k))[::-1], 2, False)]
@@ -463,8 +464,21 @@ def run(ctx):
             for i, (cfg, specs) in enumerate(scen):
                 refs.append({s["stem"]: flat[k + j] for j, s in enumerate(specs)})
                 k += len(specs)
+            # a file whose name contains glob metacharacters, next to one that the pattern would match: the file NAMED is the one processed
+            br = [dict(scen[0][1][1], stem="b[1]_100hz"), dict(scen[0][1][1], stem="b1_100hz", seed=scen[0][1][1]["seed"] + 1)]
+            build_scenario(roots[0], scen[0][0], br)
+            brf = ex.submit(run_cli, os.path.join(roots[0], "run_brackets"), roots[0], scen[0][0], br[:1], 1, False)
             clis = [f.result() for f in futs]
             dupr = dupf.result()
+            brr = brf.result()
+            bref = references_fresh([(roots[0], scen[0][0], br[0])])[0]
+            ctx.supporting["bracket_name_probe"] = 1
+            got = brr["files"].get(br[0]["stem"])
+            if brr["rc"] != 0 or got is None or not bref.get("ok") or got != bref.get("csv") or any(x.endswith(".csv") for x in brr["extra"]):
+                ctx.violation("output-written-for-every-file", dict(case=dict(cfg=scen[0][0], files=br[:1], nproc=1, also_present_in_directory=br[1]["stem"] + ".mseed"),
+                                                                 detail=dict(rc=brr["rc"], csv_written=sorted(brr["files"]), other_files=brr["extra"], stderr=brr["stderr"][-300:],
+                                                                             equals_reference=(got == bref.get("csv")) if got is not None else None)),
+                              seam="CLI on a file name containing '[' ']'")
         ctx.notes.append("same-stem probe (outside the stated assumption): `cli d1/x.mseed d2/x.mseed --nproc 1` exit=%s wrote %d csv file(s) "
                          "for 2 input files (both results go to ./x.csv, the later one survives)" % (dupr["rc"], len(dupr["files"])))
         ctx.count("same_stem_probe_csv_files:%d" % len(dupr["files"]))
